@@ -104,15 +104,17 @@ partial def loop (h : IO.FS.Stream) (d : DS) : IO Unit := do
     match r with
     | none => IO.println "bad-op"; loop h { d with dead := true }
     | some (g, ow) =>
-      -- open callback: the calls run before registration
-      let mut d : DS := { g, s := {} }
+      let dial := Drv.field cfg "dial" == some "1"
+      -- open callback: the calls run before registration; DialAsync: addDialer first, then the connect
+      -- completes (EPOLLOUT) and the calls run inside the connected callback
+      let mut d : DS := { g, s := if dial then evTake g (registerDial g {}) true false false [] else {} }
       let mut rs : List String := []
       for c in ow do
         let (s, r) := doCall g d.s c
         rs := rs ++ [showRet r]
         let (d', _) := observe d s
         d := d'
-      let (d', str) := observe { d with nctl := 0 } (register g d.s)
+      let (d', str) := observe { d with nctl := 0 } (if dial then evEnd g d.s else register g d.s)
       if d'.s.hung then IO.println hungLine; loop h { d' with dead := true }
       else IO.println s!"R ow={String.intercalate ";" rs} {str}"; loop h d'
   | "O" :: rest =>
